@@ -312,7 +312,8 @@ pub fn generate(ctx: &mut Ctx) {
             let mut dec = true;
             let mut post: u64 = 0;
             let kid = if spec.spki == pool.ec_spki { pool.ec_ski.clone() } else { pool.keys[subj].ski.clone() };
-            match rng.below(28) {
+            let ymd = |y: i32, m: u32, d: u32| Utc.with_ymd_and_hms(y, m, d, 0, 0, 0).unwrap().timestamp();
+            match rng.below(33) {
                 0 => now = spec.not_before - 1,
                 1 => now = spec.not_before,
                 2 => now = spec.not_after,
@@ -337,6 +338,12 @@ pub fn generate(ctx: &mut Ctx) {
                 21 => { spec.trim = !spec.trim; }
                 22 => { spec.eku_router = !spec.eku_router; }
                 23 => { spec.rpki_notify = Some("https://h/n.xml".into()); }
+                // the two time encodings and the two-digit-year pivot: windows that end / begin in 1950, 2049 and 2050
+                24 => { spec.not_before = ymd(1949, 6, 1); spec.not_after = ymd(1950, 6, 1); }                 // long expired
+                25 => { spec.not_before = ymd(1950, 1, 1); spec.not_after = ymd(2049, 12, 31) + 86399; }       // both UTCTime, extreme years
+                26 => { spec.not_before = ymd(2049, 12, 31); spec.not_after = ymd(2050, 1, 1); now = *rng.pick(&[ymd(2049, 12, 31) - 1, ymd(2049, 12, 31) + 5, ymd(2050, 1, 1), ymd(2050, 1, 1) + 1]); }
+                27 => { spec.not_before = ymd(1950, 1, 1); spec.not_after = ymd(1950, 12, 31); now = *rng.pick(&[ymd(1950, 6, 1), ymd(1949, 12, 31), ymd(1951, 1, 1), T0]); }
+                28 => { spec.not_before = ymd(2050, 1, 1); spec.not_after = ymd(2051, 1, 1); }                  // not yet valid (GeneralizedTime)
                 _ => {}
             }
             // key usage must agree with the CA flag at decode time; keep them consistent unless case 16 changed it
